@@ -14,6 +14,10 @@ def batchBound (maxB : Nat) (batches : List (List Nat)) : Bool := batches.all (Â
 /-- S6: only spans that were ended (and sampled) are exported -/
 def onlyEnded (batches : List (List Nat)) (ended : List Nat) : Bool := batches.flatten.all (ended.contains Â·)
 
+/-- S6, second half: no unsampled span id occurs in the exporter's log -/
+def unsampledNotExported (batches : List (List Nat)) (unsampled : List Nat) : Bool :=
+  !batches.flatten.any (unsampled.contains Â·)
+
 /-- S5 in its observable form: the spans ended before the call that are not in the exporter's log are
 covered by the dropped counter, and nothing may be missing in blocking mode -/
 def delivered (blocking : Bool) (pre : List Nat) (batches : List (List Nat)) (dropped : Nat) : Bool :=
@@ -87,7 +91,7 @@ def histCheck (maxB : Nat) (blocking : Bool) (dropped : Nat) (allEnded allUnsamp
   let bad := if noDuplicate s.batches then bad else "S1:duplicate" :: bad
   let bad := if batchBound maxB s.batches then bad else "S2:batch-too-large" :: bad
   let bad := if onlyEnded s.batches allEnded then bad else "S6:unknown-span-exported" :: bad
-  let bad := if s.batches.flatten.any (allUnsampled.contains Â·) then "S6:unsampled-exported" :: bad else bad
+  let bad := if unsampledNotExported s.batches allUnsampled then bad else "S6:unsampled-exported" :: bad
   (bad, s.f22)
 
 /-- the ids of the `ended` events of a history -/
